@@ -40,7 +40,10 @@ pub struct StreamWriter<W> {
 impl<W> Clone for StreamWriter<W> {
     #[inline]
     fn clone(&self) -> Self {
-        Self { writer: self.writer.clone(), lock: None, head: self.head, head_idx: 0, orig_len: 0 }
+        // The clone starts out idle, it must not inherit the remaining
+        // lengths of a record `self` is in the middle of writing
+        let head = fcgi::RecordHeader::new(self.head.rtype, self.head.request_id);
+        Self { writer: self.writer.clone(), lock: None, head, head_idx: 0, orig_len: 0 }
     }
 }
 
